@@ -672,6 +672,30 @@ func Universe(dir string) ([]Item, error) {
 		})
 	}
 
+	// --- TLS settings read by a decoder of their own (not the one of the configuration): every option the schema
+	// knows there is understood (whether a connection or a certificate comes about is another matter)
+	for _, opt := range []struct {
+		name string
+		tls  m
+	}{
+		{"key_id", m{"key_store": m{"path": keyPath}, "key_id": "item"}},
+		{"min_version", m{"min_version": "TLS1.3"}},
+		{"cipher_suites", m{"cipher_suites": []any{"TLS_ECDHE_RSA_WITH_AES_128_GCM_SHA256"}}},
+	} {
+		items = append(items, Item{
+			Name: "option:cache:redis:tls-" + opt.name, Category: "option-value", Source: "both",
+			Config: m{"cache": m{"type": "redis", "config": m{"address": "127.0.0.1:1", "tls": opt.tls}}},
+			Effective: func(c *config.Configuration) (bool, string) {
+				_, err := cache.Create(c.Cache.Type, c.Cache.Config, noopWatcher{}, certificate.NewObserver())
+				if err != nil && strings.Contains(err.Error(), "decod") {
+					return false, err.Error()
+				}
+
+				return true, ""
+			},
+		})
+	}
+
 	// --- rule providers
 	provNames, provSrc := union(koanfTags(reflect.TypeOf(config.RuleProviders{})),
 		keysOf(sch.at("properties", "providers", "properties")))
